@@ -3,6 +3,7 @@
 //! flushing after each so that an abort (stack overflow) is attributable to a case.
 
 mod enc;
+mod serde_stream;
 
 use enc::*;
 use jmespath::{Rcvar, Variable};
@@ -294,6 +295,7 @@ fn main() {
             "errfmt" => stream_errfmt(&fields),
             "registry" => stream_registry(&fields),
             "json" => stream_json(&fields),
+            "serde" => serde_stream::stream_serde(&fields),
             "history" => stream_history(&fields),
             s => panic!("unknown stream {}", s),
         };
